@@ -73,7 +73,7 @@ func jsonEq(a, b interface{}) bool {
 func c11(r *hx.Run) {
 	fx.Quiet()
 	r.Rule = "full product of builder inputs: 5 key types (EdDSA, ES256, ES384, ES512, ES256K) x 2 hash algorithms x {opaque document, patch list} x anchor origin {nil, string, object} x window {none, from only, from+until} x nonce {absent, 16 bytes} x kid {absent, present}, plus 16 configurations whose signing keys have a coordinate with a leading zero byte; the four client builders with the library's signers and JWK conversion produce create/update/recover/deactivate requests; each must be accepted by the real parser (configured with a server-time window validator, T inside every supplied window), parse back to the supplied suffix, commitments, patches, reveal value, key and window, and - anchored inside the window on a DID whose commitment matches - resolve on the real processor to the state computed by ref/doc + the supplied commitments. Non-trivial: every configuration (all reach resolution)."
-	const T = 1000
+	const T = 1000000
 	type cfg struct {
 		kt     string
 		code   uint
@@ -118,6 +118,9 @@ func c11(r *hx.Run) {
 		p := fx.DefaultProtocol()
 		other := fx.SHA256 + fx.SHA512 - c.code
 		p.MultihashAlgorithms = []uint{c.code, other}
+		// the window implied by anchorFrom alone is [from, from+MaxOperationTimeDelta]; the delta is larger than every size limit
+		// and the anchoring time sits deep inside the window, beyond from + any other protocol number
+		p.MaxOperationTimeDelta = 300007
 		// intake validates the signed window against the server time T (a validator in the style of a deployment: from <= T < until;
 		// 0/0 means no window)
 		ver := fx.NewVersion(p, &fx.VersionOpts{ParserOpts: []operationparser.Option{operationparser.WithAnchorTimeValidator(c11ServerTime(T))}})
@@ -133,9 +136,9 @@ func c11(r *hx.Run) {
 		var from, until int64
 		switch c.window {
 		case 1:
-			from = T - 10
+			from = T - 250000
 		case 2:
-			from, until = T-10, T+10
+			from, until = T-250000, T+10
 		}
 		keys := map[string]*fx.Key{}
 		jwks := map[string]*jws.JWK{}
